@@ -40,6 +40,9 @@ def parseAttrs : List String → Option (PixelModule × String × List String)
     | _, _, _, _, _, _, _, _, _, _ => none
   | _ => none
 
+def showMod (m : PixelModule) : String :=
+  s!"[{m.photometric},{m.lutShape},spp={m.spp},planar={m.planar},cols={m.cols},rows={m.rows},ba={m.bitsAllocated},bs={m.bitsStored},hb={m.highBit},pr={m.pixelRepr},frames={m.numberOfFrames},vr={m.pixelVr}]"
+
 /-- pixel data as stored: padded to even length -/
 def padEven (b : Bytes) : Bytes := if b.length % 2 = 1 then b ++ [0] else b
 
@@ -103,7 +106,7 @@ def handle (line : String) : String :=
             let m := inject img
             let mObs := { obs with pixelData := [] }
             let mMod := { m with pixelData := [] }
-            if mObs ≠ mMod then s!"MODEL-DIFF attributes model={repr mMod} impl={repr mObs}"
+            if mObs ≠ mMod then s!"MODEL-DIFF attributes model={showMod mMod} impl={showMod mObs}"
             else if obs.pixelData ≠ padEven m.pixelData then "MODEL-DIFF pixel data bytes"
             else if ts ≠ "1.2.840.10008.1.2.1" then s!"MODEL-DIFF transfer syntax {ts}"
             else if unwrapFrame m ≠ unw then "MODEL-DIFF unwrapped frame"
